@@ -1,7 +1,7 @@
 SPECIFICATION Spec
 CONSTANTS
   AmbiguityFirst = FALSE
-  Kinds = {"up", "authn", "idtu"}
+  Kinds = {"up", "authn", "idtu", "empty"}
   MaxKeys = 3
   Export = TRUE
 INVARIANTS
